@@ -224,6 +224,10 @@ def SemVer.render (x : SemVer) : List Char :=
   Nat.toDigits 10 x.major ++ ('.' :: (Nat.toDigits 10 x.minor ++ ('.' :: (Nat.toDigits 10 x.patch ++
     ((if x.pre.isEmpty then [] else '-' :: renderPre x.pre) ++ (if x.build.isEmpty then [] else '+' :: x.build))))))
 
+/-- build metadata as semver.org §10 writes it: absent, or dot-separated non-empty identifiers -/
+def SemVer.buildWf (x : SemVer) : Bool :=
+  x.build.isEmpty || (splitOn '.' x.build).all fun i => !i.isEmpty && i.all identChar
+
 /-! ### reading a canonical version back (used by the driver for the oracle) -/
 
 /-- a numeric field: digits, no leading zero -/
